@@ -313,7 +313,8 @@ class Report:
 def proof_stage(rep, prop, thorough=False):
     """Build the property's theorems, audit axioms and sources. Returns the `proof` dict for
     Report.finish; records a violation (no failing input yet) when something does not check."""
-    targets = [f"BitcaskVerif.Props.{prop}", "driver"]
+    audit_src = open(os.path.join(LEAN, "BitcaskVerif", "Audit", prop + ".lean")).read()
+    targets = sorted(set([f"BitcaskVerif.Props.{prop}"] + re.findall(r"^import (BitcaskVerif\.\S+)", audit_src, re.M))) + ["driver"]
     ok, out = build_lean(targets)
     names = expected_theorems(prop)
     proof = dict(obligations=len(names), discharged=0,
